@@ -320,9 +320,15 @@ public:
   /// or dequeue() operations will be woken up.
   void close()
   {
-    if (_closed.exchange(true, std::memory_order_acq_rel))
     {
-      return; // Already closed
+      // Set the flag under the mutex: a caller that has evaluated its wait
+      // predicate but has not blocked yet would otherwise miss both the flag
+      // and the notification below and stay blocked forever.
+      std::lock_guard<std::mutex> lock(_mutex);
+      if (_closed.exchange(true, std::memory_order_acq_rel))
+      {
+        return; // Already closed
+      }
     }
 
     // Wake all waiting threads
